@@ -340,9 +340,55 @@ func Check16(c Case16, r *core.Rec) {
 //     and nothing else differs from the default parser's result once those are re-escaped there too.
 //   - WithSkipWindowsDriveLetterNormalization "skips conversion of 'C|' to 'C:'": a file URL whose
 //     first path segment is written X| keeps it, and equals the default result with that ':' as '|'.
+//
+// singlePercentEncoder: the option's rule in the string encoder (what the credential setters use): the
+// output is the default parser's, except that every '%' of the input that is not followed by two hex
+// digits is written %25 — so no lone '%' is left. Judged on the whole input and on its last path piece
+// (a string in which the '%' may be the only character any set would touch).
+func singlePercentEncoder(c Case16, r *core.Rec) bool {
+	po := url.NewParser(c.Opts[0].option())
+	whole := string(c.Input)
+	piece := whole[strings.LastIndexAny(whole, "/\\@:")+1:]
+	for _, in := range []string{whole, piece} {
+		for _, ns := range []namedSet{NamedSets[5], NamedSets[4], NamedSets[0]} {
+			var want strings.Builder
+			rs, last := []rune(in), 0
+			for i, x := range rs {
+				if x == '%' && !(i+2 < len(rs) && rs[i+1] < 0x80 && rs[i+2] < 0x80 && isHexByte(byte(rs[i+1])) && isHexByte(byte(rs[i+2]))) {
+					want.WriteString(DefaultParser.PercentEncodeString(string(rs[last:i]), ns.Set))
+					want.WriteString("%25")
+					last = i + 1
+				}
+			}
+			want.WriteString(DefaultParser.PercentEncodeString(string(rs[last:]), ns.Set))
+			if out := po.PercentEncodeString(in, ns.Set); out != want.String() {
+				r.Failf("%s: PercentEncodeString(%s, %s) under the option gives %q, expected %q (the default encoder's output with each '%%' that is not followed by two hex digits written %%25)", where16(c), quote(in), ns.Name, out, want.String())
+				return false
+			}
+		}
+		if hu, err := po.Parse("http://h/"); err == nil && hu != nil {
+			hu.SetUsername(in)
+			hu.SetPassword(in)
+			for _, v := range []string{hu.Username(), hu.Password()} {
+				if hasLonePercent(v) {
+					r.Failf("%s: after SetUsername / SetPassword(%s) on http://h/ the credentials %q still have a '%%' that is not followed by two hex digits", where16(c), quote(in), v)
+					return false
+				}
+			}
+			if hasLonePercent(in) {
+				r.NT()
+			}
+		}
+	}
+	return true
+}
+
 func check16DocumentedEffect(c Case16, r *core.Rec) {
 	if len(c.Opts) != 1 {
 		r.Vacuous()
+		return
+	}
+	if c.Opts[0].Name == "single-percent" && !singlePercentEncoder(c, r) {
 		return
 	}
 	d0 := parse16(DefaultParser, c)
@@ -1072,7 +1118,7 @@ func genInput16(t *rapid.T, c *Case16) {
 	c.Input, c.Base, c.HasBase = B(in), B(base), has
 }
 
-var c16SortQueries = []string{"?b=2&a=1", "?a=2&a=1&b=0", "?c&b&a", "?a=1&A=2&a=0", "?b=%41&a=%42", "?z=1&y=%26&x=%3D", "?b=1+1&a=2%2B2", "?b&a=b=c&a", "?%FF=1&a=2", "?é=1&e=2&z=3", "?a=1#f", "?&&b=&a=&", "?b=2&a=1&b=1&a=2", "?a%26b=1&a=2", "?x=%25&w=1"}
+var c16SortQueries = []string{"?a*=1&a+b=2", "?k!=1&k+=2&k=3", "?b=2&a=1", "?a=2&a=1&b=0", "?c&b&a", "?a=1&A=2&a=0", "?b=%41&a=%42", "?z=1&y=%26&x=%3D", "?b=1+1&a=2%2B2", "?b&a=b=c&a", "?%FF=1&a=2", "?é=1&e=2&z=3", "?a=1#f", "?&&b=&a=&", "?b=2&a=1&b=1&a=2", "?a%26b=1&a=2", "?x=%25&w=1"}
 
 func Gen16(t *rapid.T) Case16 {
 	var c Case16
@@ -1149,11 +1195,13 @@ func Gen16(t *rapid.T) Case16 {
 		genInput16(t, &c)
 		if rapid.IntRange(0, 1).Draw(t, "withquery") == 0 {
 			q := gen.Pick(t, "sortquery", c16SortQueries)
-			switch rapid.IntRange(0, 2).Draw(t, "genquery") {
+			switch rapid.IntRange(0, 3).Draw(t, "genquery") {
 			case 0:
 				q = "?" + genQuery(t)
 			case 1:
 				q = "?" + genLongQuery(t)
+			case 2:
+				q = "?" + genOrderQuery(t)
 			}
 			c.Input, c.HasBase = B("http://h/p"+q), false
 		}
@@ -1251,6 +1299,20 @@ func Gen16(t *rapid.T) Case16 {
 
 // genLongQuery: 8..40 parameters over a few repeated names with distinct values, so that stability
 // of the sort is observable (sort implementations switch algorithm above a dozen elements).
+// genOrderQuery: names with a common prefix whose order as written differs from their order once
+// decoded — '+' is a space (before everything) but is written with a byte that sorts after
+// ! $ ( ) * and before , - . — so "already in order as written" and "in order" are different things.
+func genOrderQuery(t *rapid.T) string {
+	prefix := gen.Pick(t, "oprefix", []string{"a", "", "k", "a+", "ab"})
+	tails := []string{"*", "+", "!", "+b", "(x", "", "-", ",", "$", ")", "+*", "*+", ".", "a", "+a", "%20", "%2B"}
+	n := rapid.IntRange(2, 5).Draw(t, "onames")
+	var parts []string
+	for i := 0; i < n; i++ {
+		parts = append(parts, fmt.Sprintf("%s%s=%d", prefix, gen.Pick(t, "otail", tails), i))
+	}
+	return strings.Join(parts, "&")
+}
+
 func genLongQuery(t *rapid.T) string {
 	n := rapid.IntRange(8, 40).Draw(t, "nparams")
 	names := []string{"b", "a", "c", "b", "a", "d", "B", "aa"}
@@ -1272,7 +1334,7 @@ func sortedOptNames(opts []Opt16) []string {
 
 var P16 = core.Register(core.Prop[Case16]{
 	ID: "C16",
-	Rule: "each case draws a clause and its data: no-options (canonicalizer.New(), url.NewParser(), WhatWg vs the package functions, incl. the empty base string); remove (any subset of remove-user-info / remove-port / remove-fragment vs the reference model's parse followed by the standard's setter steps, cross-checked with the real setters); sort (SortKeys / SortParameter / NoSort vs the sorted decoded list of the default parser's result); default-scheme (unaffected / parsed as scheme://input exactly when the reference model fails in the no-scheme state / still failing); neutral (1..4 of 14 parser options with generated encode sets and added schemes: if no option's trigger is present in the input text — and in the values of up to three setter calls applied afterwards — the result equals the default parser's); collapse-effect (no empty non-final segment in special paths, non-special untouched); encode-set-effect (a replaced set governs exactly its component and scheme class); documented-effect (single-percent-sign leaves no lone '%' in the path and changes nothing else; skip-drive-letter-normalization keeps a first segment written X| and changes nothing else); canon-combo (any subset of the five canonicalizer options together vs the default parser's result with the default-scheme rule, the real setters and the sorted decoded list); skip-equals ('=' dropped exactly for empty values); special-scheme-effect (an added scheme parses like http with its own default port); " +
+	Rule: "each case draws a clause and its data: no-options (canonicalizer.New(), url.NewParser(), WhatWg vs the package functions, incl. the empty base string); remove (any subset of remove-user-info / remove-port / remove-fragment vs the reference model's parse followed by the standard's setter steps, cross-checked with the real setters); sort (SortKeys / SortParameter / NoSort vs the sorted decoded list of the default parser's result); default-scheme (unaffected / parsed as scheme://input exactly when the reference model fails in the no-scheme state / still failing); neutral (1..4 of 14 parser options with generated encode sets and added schemes: if no option's trigger is present in the input text — and in the values of up to three setter calls applied afterwards — the result equals the default parser's); collapse-effect (no empty non-final segment in special paths, non-special untouched); encode-set-effect (a replaced set governs exactly its component and scheme class); documented-effect (single-percent-sign leaves no lone '%' in the path and changes nothing else, and PercentEncodeString / the credential setters under it write each such '%' as %25; skip-drive-letter-normalization keeps a first segment written X| and changes nothing else); canon-combo (any subset of the five canonicalizer options together vs the default parser's result with the default-scheme rule, the real setters and the sorted decoded list); skip-equals ('=' dropped exactly for empty values); special-scheme-effect (an added scheme parses like http with its own default port); " +
 		"non-trivial = the clause's option actually applies to the input (its trigger / target is present), or at least 2 options combined with all triggers absent on a parsing input; distinct by hash of the case",
 	Gen:   Gen16,
 	Check: Check16,
